@@ -53,13 +53,7 @@ def mkOrders (k : Nat) : Orders :=
       parents := fun n => ⟨shuf (k + 1 + n.length)⟩
       orderMap := ⟨shuf (k + 5)⟩ }
 
-def mkParams (r : AuthRules) : Params :=
-  { creatorOf := fun e => (Auth.createCreator r e).toOption
-    userLevel := fun pl u c => (Auth.plUserLevel r pl u c).toOption
-    usersDefault := fun pl => (Auth.plIntOrDefault r pl .usersDefault).toOption
-    membership := fun e => (Auth.contentMembership e.content).toOption
-    authTypes := fun e => (Auth.authTypesForEvent r e).toOption
-    auth := fun e f => Auth.authCheck r e f }
+def mkParams (r : AuthRules) : Params := realParams r
 
 def parseEvent (v : JVal) : Option Event :=
   match v with
